@@ -1003,7 +1003,7 @@ def gen_signmsg_case(rng, how=None):
     now = gen_time(rng)
     fudge = rng.choice(FUDGES)
     oid = rng.randrange(65536) if rng.random() < 0.5 else struct.unpack("!H", wire[:2])[0]
-    error = 0 if rng.random() < 0.85 else rng.choice([16, 17, 18, 22])
+    error = 0 if rng.random() < 0.8 else rng.choice([16, 17, 18, 18, 22])
     other = u48(now) if error == 18 else b""
     rmac = b"" if rng.random() < 0.5 else gen_mac(rng)
     how = rng.randrange(2) if how is None else how
@@ -1311,22 +1311,22 @@ def cases(ctx):
         yield "exchange", gen_exchange_case(rng)
     for _ in range(ctx.n(30, 300)):
         yield "keyring", gen_keyring_case(rng)
-    for _ in range(ctx.n(110, 2500)):
+    for _ in range(ctx.n(80, 2500)):
         yield "sign", gen_sign_case(rng)
-    for _ in range(ctx.n(280, 4000)):
-        yield gen_validate_case(rng)
-    for _ in range(ctx.n(80, 1000)):
+    for i in range(ctx.n(210, 4000)):
+        yield gen_validate_case(rng, VKINDS[i % len(VKINDS)])   # every variant in every run
+    for _ in range(ctx.n(60, 1000)):
         yield "rdata-to-wire", [3, gen_rdata_fields(rng)]
         yield "rdata-from-wire", gen_rdata_wire_case(rng)
-    for _ in range(ctx.n(60, 1200)):
+    for _ in range(ctx.n(48, 1200)):
         yield "sign-message", gen_signmsg_case(rng)
-    for _ in range(ctx.n(280, 4000)):
-        kind, c = gen_read_case(rng)
+    for i in range(ctx.n(210, 4000)):
+        kind, c = gen_read_case(rng, RKINDS[i % len(RKINDS)])
         yield "read:" + kind, c
-    for _ in range(ctx.n(60, 1500)):
+    for _ in range(ctx.n(40, 1500)):
         kind, c = gen_realistic_read_case(rng)
         yield "read:" + kind, c
-    for _ in range(ctx.n(24, 600)):
+    for _ in range(ctx.n(18, 600)):
         yield from gen_stream_cases(rng)
 
 
@@ -1643,7 +1643,7 @@ def realistic_message(rng):
 def flip_sources(ctx):
     """signed messages to tamper with: (wire, key, rmac, now, running-ctx or None)"""
     rng = ctx.rng
-    n = ctx.n(30, 300)
+    n = ctx.n(24, 300)
     for i in range(n):
         k = gen_key(rng, 0)
         r = rng.random()
